@@ -36,6 +36,8 @@ import (
 	porttypes "github.com/cosmos/ibc-go/v8/modules/core/05-port/types"
 	ibcexported "github.com/cosmos/ibc-go/v8/modules/core/exported"
 
+	orbiter "github.com/noble-assets/orbiter/v2"
+	modulev1 "github.com/noble-assets/orbiter/v2/api/module/v1"
 	"github.com/noble-assets/orbiter/v2/controller"
 	actionctrl "github.com/noble-assets/orbiter/v2/controller/action"
 	adapterctrl "github.com/noble-assets/orbiter/v2/controller/adapter"
@@ -564,4 +566,30 @@ type fwdReplaceMsg = forwardertypes.MsgReplaceDepositForBurn
 
 func forwarderMsgServer(in *Instr) forwardertypes.MsgServer {
 	return forwardercomp.NewMsgServer(in.Keeper.Forwarder(), in.Keeper)
+}
+
+// NewWiredStack: the module built once more over the same stores by the repository's own ProvideModule, with only the
+// SELECTED groups of controllers injected by the repository's own Inject* functions (what an application gets that calls
+// some of them and forgets the others), under the transfer stack the example application assembles.
+func NewWiredStack(w *World, adapters, actions, forwardings bool) (st porttypes.IBCModule, err error) {
+	defer func() {
+		if r := recover(); r != nil {
+			err = fmt.Errorf("partially wired module could not be built: %v", r)
+		}
+	}()
+	app := w.App
+	out := orbiter.ProvideModule(orbiter.ModuleInputs{Config: &modulev1.Module{Authority: w.Authority}, Codec: app.appCodec, AddressCodec: addresscodec.NewBech32Codec("noble"),
+		Logger: silentLogger, EventService: runtime.ProvideEventService(), StoreService: runtime.NewKVStoreService(app.GetKey(core.ModuleName)), BankKeeper: app.BankKeeper})
+	in := orbiter.ComponentsInputs{Orbiters: out.Keeper, BankKeeper: app.BankKeeper, CCTPKeeper: app.CCTPKeeper, WarpKeeper: app.WarpKeeper}
+	if actions {
+		orbiter.InjectActionControllers(in)
+	}
+	if forwardings {
+		orbiter.InjectForwardingControllers(in)
+	}
+	if adapters {
+		orbiter.InjectAdapterControllers(in)
+	}
+	st = entrypoint.NewIBCMiddleware(transfer.NewIBCModule(app.TransferKeeper), app.IBCKeeper.ChannelKeeper, out.Keeper.Adapter())
+	return blockibc.NewIBCMiddleware(st, app.FTFKeeper), nil
 }
